@@ -139,6 +139,30 @@ pub fn run_property<P: Property>(p: &P, args: &Args) -> i32 {
             return 2;
         };
         let case = v.get("case").cloned().unwrap_or(v);
+        if f.clause == "crash" {
+            // the recorded finding takes the process down (stack overflow, abort): replay in a child; the child's
+            // crash handler turns the fatal signal into exit code 1
+            let exe = std::env::current_exe().expect("current exe");
+            let st = std::process::Command::new(exe)
+                .args([id, args.tier.name(), "--replay", path.to_str().unwrap()])
+                .stdout(std::process::Stdio::null())
+                .stderr(std::process::Stdio::null())
+                .status();
+            corpus_evals += 1;
+            match st {
+                Ok(st) if st.code() == Some(0) => println!("NOTE: known finding {} no longer reproduces on this tree", f.finding),
+                Ok(_) => {
+                    let line = format!("KNOWN-FINDING: property={} {} [crash] {}", id, f.finding, f.what);
+                    println!("{}", line);
+                    known_lines.push(line);
+                }
+                Err(e) => {
+                    println!("known finding {}: cannot run the replay child: {}", f.finding, e);
+                    return 2;
+                }
+            }
+            continue;
+        }
         if f.clause == "hang" {
             // non-termination cannot be observed in-process: replay in a child with a wall-clock
             // cap far above the expected run time (microseconds). Only used to REPORT a recorded
